@@ -27,6 +27,7 @@ def source_sig():
     sig = [("box", "f", ("x",), ("y",)), ("box", "g", ("y",), ("x", "z")), ("box", "h", ("x", "y"), ()),
            ("box", "u", (), ("z",)), ("box", "s", (), ()), ("box", "k", ("z",), ("z",)),
            ("box", "gd", ("x", "z"), ("y",), True), ("box", "fd", ("y",), ("x",), True),
+           ("box", "k", ("z",), ("z",), True), ("box", "w", ("x",), ("x",)), ("box", "w", ("x",), ("x",), True),
            ("swap", "x", "y"), ("swap", "y", "z"), ("swap", "x", "x"), ("swap", "z", "x"),
            ("cup", "x", "x.r"), ("cup", "x.l", "x"), ("cap", "x.r", "x"), ("cap", "x", "x.l"),
            ("cup", "z", "z.r"), ("cap", "z", "z.l")]
@@ -184,7 +185,8 @@ def poly(x):
 def tensor_sig():
     return [("tbox", "a", (2,), (3,)), ("tbox", "b", (3,), (2, 2)), ("tbox", "c", (), (2,)),
             ("tbox", "d", (2, 3), ()), ("tbox", "s", (), ()), ("tbox", "ad", (3,), (2,), True),
-            ("tbox", "bd", (2, 2), (3,), True),
+            ("tbox", "bd", (2, 2), (3,), True), ("tbox", "en", (2,), (2,)), ("tbox", "en", (2,), (2,), True),
+            ("e", "Box('a', Dim(2), Dim(3), [6, 5j, 4, 3, 2, 1])"),
             ("e", "Swap(Dim(2), Dim(3))"), ("e", "Swap(Dim(3), Dim(2))"), ("e", "Swap(Dim(2), Dim(2))"),
             ("e", "Spider(1, 2, 2)"), ("e", "Spider(2, 1, 3)"), ("e", "Spider(0, 1, 2)"), ("e", "Spider(2, 0, 3)"),
             ("e", "Cup(Dim(2), Dim(2))"), ("e", "Cap(Dim(3), Dim(3))"),
@@ -214,14 +216,10 @@ def ref_tensor_matrix(d):
             return ref.cup_matrix(dc[0]).T
         if isinstance(b, monoidal.Swap):
             return ref.swap_matrix(dd[0], dd[1])
-        if b.is_dagger:
-            n = ref.prod(dd) * ref.prod(dc)
-            data = np.array(build.generic_data(str(b.name), n)) if str(b.name) not in ("p", "q") else None
+        data = np.array(b.data, dtype=complex).flatten()     # the data the box was given
+        if b.is_dagger:   # a daggered box keeps the data of the box it is the dagger of
             return data.reshape(ref.prod(dc), ref.prod(dd)).conj().T
-        if str(b.name) in ("p", "q"):
-            return np.array(b.data, dtype=complex).reshape(ref.prod(dd), ref.prod(dc))
-        n = ref.prod(dd) * ref.prod(dc)
-        return np.array(build.generic_data(str(b.name), n)).reshape(ref.prod(dd), ref.prod(dc))
+        return data.reshape(ref.prod(dd), ref.prod(dc))
     return ref.ref_eval(d, lambda a: a, mat_of)
 
 
